@@ -3,8 +3,8 @@ import random
 from checks.hgen import *
 
 META = dict(
-    bounds=["S: concrete skeletons of <= 14 calls, transfers <= 16 bytes, files <= 8 KiB, every payload byte symbolic",
-            "K: see harness/C01/*.c"],
+    bounds=["S: concrete skeletons of <= 30 calls (18 curated + seed-derived), transfers <= 16 bytes, files <= 8 KiB, every payload byte symbolic",
+            "no kernel harnesses"],
     stubs=["stdio = models/memio.c (bytes written are the bytes read; short reads at EOF; zero-filled gaps)",
            "error stack = models/herr_model.c (codes only)", "malloc never fails", "atom cache swap via H4_VERIF hook"],
     outside=["lengths/positions symbolic only in kernel harnesses", "transfers > 16 bytes", "more than 4 elements"],
